@@ -73,6 +73,15 @@ CHECKS = [
              "forward and inverse draws: samples are linear in the white noise with zero mean and z3 refutes T T^H != A (A^-1) for "
              "ALL positive operator data; every refusal clause (no dtype, non-positive/complex data, non-invertible cases) must raise.",
      "design_ref": "DESIGN.md 4/C13"},
+    {"property_id": "C14", "engine": "A", "category": "other", "technique": TECH_A + "; all feasible paths of the real CG loop and controllers explored by path replay, quotients named by fresh variables (q*b == a)",
+     "note": NOTE_A + " Bounded: n <= 2 (3 thorough), iteration limits <= 3.",
+     "text": "Bounded symbolic verification of ConjugateGradient, QuadraticEnergy, the iteration controllers and InversionEnabler on a "
+             "symbolic positive definite operator (diagonal n<=2, thorough: n=3 and dense 2x2), rhs, start, tolerances, positive "
+             "preconditioner, real/complex: on EVERY feasible path z3 proves energy.value/gradient equal 1/2 x^H A x - Re b^H x and "
+             "A x - b recomputed from the returned position, status is never ERROR, and CONVERGED before the iteration limit "
+             "implies the controller's criterion for that gradient (or a vanishing residual); one controller object re-used "
+             "for consecutive solves included.",
+     "design_ref": "DESIGN.md 4/C14"},
 ]
 
 ALL = [f"C{i:02d}" for i in range(1, 37)]
